@@ -457,7 +457,10 @@ static unsigned save_to_argbuf(void *argbuf, struct list_head *args_spec,
 				char buf[32];
 
 				if (!check_mem_region(ctx, (unsigned long)str)) {
+					/* snprintf() may clobber floating-point registers */
+					mcount_save_arch_context(ctx->arch);
 					len = snprintf(buf, sizeof(buf), "<%p>", str);
+					mcount_restore_arch_context(ctx->arch);
 					str = buf;
 				}
 
